@@ -9,6 +9,7 @@ def run(tier, seed, replay):
     run = C.Run("C04", tier, seed, "model_checking")
     d = C.outdir("C04")
     hb = C.build_harness()
+    vbin = C.build_binary()
     cases = os.path.join(d, "cases.ndjson")
     mc = None
     if replay:
@@ -54,6 +55,20 @@ def run(tier, seed, replay):
             run.failure(rec)
     run.traces += s["cases"]
     run.evaluations += s["cases"]
+    # every case once more through the real command line (`versatiles convert -c <codec> [-f] in out`)
+    tc = os.path.join(d, "trace_cli.ndjson")
+    sc = C.run_harness(hb, ["cli", "CONVERT", cases, tc, C.scratch_dir("C04cli"), vbin, "1"], timeout=6000)
+    vc = C.validate_trace("trace/Trace_Convert.tla", "trace/Trace_Convert.cfg", "C04_cli_trace", tc, timeout=3000)
+    run.add_tlc(vc)
+    for (line, fl) in vc.fails:
+        for cl in fl["clauses"]:
+            c = fl["case"]
+            rec = {"clause": cl, "src_tc": c["src_tc"], "target": c["target"], "force": c["force"], "fmt": c["fmt"], "case": c}
+            if c["id"] < len(case_list):
+                rec["replay_case"] = case_list[c["id"]]
+            run.failure(rec)
+    run.traces += sc["cases"]
+    run.evaluations += sc["cases"]
     nt = [c for c in case_list if c["target"] != "keep" and (c["target"] != c["src_tc"] or c["force"] == 1)]
     run.nontrivial = len(nt)
     run.samples = [{k: v for k, v in c.items() if k != "classes"} for c in nt[:3]]
@@ -61,7 +76,8 @@ def run(tier, seed, replay):
     run.rule = ("all (source codec, target in {keep,none,gzip,brotli}, force, container format) combinations the target can express x two "
                 "tile sets with payload classes 5 B / 1 KiB incompressible / 2 KiB compressible / 70 KB / 40 KiB incompressible / 999 B; "
                 "lookup path, stream path and the file written by the real writer are decoded with the DECLARED codec and compared with "
-                "the raw source payloads; metadata name read back from the file. non-trivial = a codec change or forced recompression")
-    run.extra = {"cases": s["cases"]}
+                "the raw source payloads; metadata name read back from the file; every case is also run through the real `versatiles convert` "
+                "command line (source file from the independent encoder, output decoded independently). non-trivial = a codec change or forced recompression")
+    run.extra = {"cases": s["cases"], "cli_runs": sc["cases"], "cli_nonzero_exit": sc["nonzero_exit"]}
     run.assumptions = ["flate2/brotli trusted (codec algebra is abstract in the spec)"]
     return run.finish()
